@@ -204,6 +204,11 @@ def assemble(ops):
     with warnings.catch_warnings():
         warnings.simplefilter("ignore")
         mesh.assemble()
+        # half of the meshes (chosen by their own first corner, so that replays agree) are assembled, cleared and assembled
+        # again from the same operations, as backport() does: assembling must not wear out the operations' edge data
+        if len(ops) and int(abs(float(ops[0].point_array[0][0])) * 1e6) % 2 == 0:
+            mesh.clear()
+            mesh.assemble()
     return mesh
 
 
